@@ -110,6 +110,10 @@ Error BaseAssembler::bind(const Label& label) {
   }
 
   Error err = _code->bind_label(label, _section->section_id(), offset());
+  if (ASMJIT_UNLIKELY(err != Error::kOk)) {
+    reset_inline_comment();
+    return report_error(err);
+  }
 
 #ifndef ASMJIT_NO_LOGGING
   if (_logger) {
@@ -118,10 +122,6 @@ Error BaseAssembler::bind(const Label& label) {
 #endif
 
   reset_inline_comment();
-  if (err != Error::kOk) {
-    return report_error(err);
-  }
-
   return Error::kOk;
 }
 
@@ -287,18 +287,6 @@ Error BaseAssembler::embed_label(const Label& label, size_t data_size) {
   CodeWriter writer(this);
   ASMJIT_PROPAGATE(writer.ensure_space(this, data_size));
 
-#ifndef ASMJIT_NO_LOGGING
-  if (_logger) {
-    StringTmp<256> sb;
-    sb.append('.');
-    Formatter::format_data_type(sb, _logger->flags(), arch(), data_type_id_by_size_table[data_size]);
-    sb.append(' ');
-    Formatter::format_label(sb, FormatFlags::kNone, this, label.id());
-    sb.append('\n');
-    _logger->log(sb);
-  }
-#endif
-
   Error err = _code->new_reloc_entry(Out(re), RelocType::kRelToAbs);
   if (ASMJIT_UNLIKELY(err != Error::kOk)) {
     return report_error(err);
@@ -325,6 +313,18 @@ Error BaseAssembler::embed_label(const Label& label, size_t data_size) {
 
     fixup->label_or_reloc_id = re->id();
   }
+
+#ifndef ASMJIT_NO_LOGGING
+  if (_logger) {
+    StringTmp<256> sb;
+    sb.append('.');
+    Formatter::format_data_type(sb, _logger->flags(), arch(), data_type_id_by_size_table[data_size]);
+    sb.append(' ');
+    Formatter::format_label(sb, FormatFlags::kNone, this, label.id());
+    sb.append('\n');
+    _logger->log(sb);
+  }
+#endif
 
   // Emit dummy DWORD/QWORD depending on the data size.
   writer.emit_zeros(data_size);
@@ -355,20 +355,6 @@ Error BaseAssembler::embed_label_delta(const Label& label, const Label& base, si
 
   CodeWriter writer(this);
   ASMJIT_PROPAGATE(writer.ensure_space(this, data_size));
-
-#ifndef ASMJIT_NO_LOGGING
-  if (_logger) {
-    StringTmp<256> sb;
-    sb.append('.');
-    Formatter::format_data_type(sb, _logger->flags(), arch(), data_type_id_by_size_table[data_size]);
-    sb.append(" (");
-    Formatter::format_label(sb, FormatFlags::kNone, this, label.id());
-    sb.append(" - ");
-    Formatter::format_label(sb, FormatFlags::kNone, this, base.id());
-    sb.append(")\n");
-    _logger->log(sb);
-  }
-#endif
 
   // If both labels are bound within the same section it means the delta can be calculated now.
   if (label_entry.is_bound() && base_entry.is_bound() && label_entry.section_id() == base_entry.section_id()) {
@@ -407,6 +393,20 @@ Error BaseAssembler::embed_label_delta(const Label& label, const Label& base, si
 
     writer.emit_zeros(data_size);
   }
+
+#ifndef ASMJIT_NO_LOGGING
+  if (_logger) {
+    StringTmp<256> sb;
+    sb.append('.');
+    Formatter::format_data_type(sb, _logger->flags(), arch(), data_type_id_by_size_table[data_size]);
+    sb.append(" (");
+    Formatter::format_label(sb, FormatFlags::kNone, this, label.id());
+    sb.append(" - ");
+    Formatter::format_label(sb, FormatFlags::kNone, this, base.id());
+    sb.append(")\n");
+    _logger->log(sb);
+  }
+#endif
 
   writer.done(this);
   return Error::kOk;
